@@ -257,7 +257,7 @@ var c18Entries = []string{"pairfixedq", "millerloopfixedq", "pairingcheckfixedq"
 // GV.ForkJoin.parEntries
 var c18ParEntries = []string{"kzgopen", "kzgcommit", "kzgbatchopen", "multiexp", "fft", "sis", "batchscalarmul", "batchjactoaff",
 	"iop", "vector", "codec", "plookupvec", "plookuptab", "permutation", "fri", "shplonk", "fflonk", "pedersen", "iopratio",
-	"kzglagrange", "vortex", "merkle"}
+	"kzglagrange", "polynomial", "vortex", "merkle"}
 
 func c18ParSupported(entry, curve string) bool {
 	for _, e := range c18ParEntries {
@@ -756,7 +756,7 @@ var c18ParCost = map[string]c18ParRun{
 	"batchjactoaff": {0xc, 4, 1}, "batchscalarmul": {8, 4, 1}, "iop": {0x10, 4, 2}, "iopratio": {8, 4, 2},
 	"kzgopen": {6, 3, 1}, "kzgcommit": {8, 4, 2}, "kzgbatchopen": {5, 3, 1}, "multiexp": {4, 3, 2}, "codec": {6, 3, 1},
 	"plookupvec": {3, 3, 1}, "plookuptab": {3, 2, 1}, "permutation": {3, 3, 1}, "fri": {4, 3, 1}, "shplonk": {3, 3, 1},
-	"fflonk": {3, 3, 1}, "pedersen": {3, 3, 1}, "kzglagrange": {3, 3, 1},
+	"fflonk": {3, 3, 1}, "pedersen": {3, 3, 1}, "kzglagrange": {3, 3, 1}, "polynomial": {0x10, 6, 1},
 }
 
 func genC18(g *gen) {
